@@ -282,7 +282,13 @@ Inductive op :=
 (* flat_set<T, static_vector<T, N>> *)
 | FlatInsertRv (t : bool) (x : Z) | FlatInsertCr (t : bool) (x : Z)
 | FlatEmplace (t : bool) (x : Z)
-| FlatEraseKey (t : bool) (x : Z).
+| FlatEraseKey (t : bool) (x : Z)
+| FlatExtract (t : bool)                  (* { auto c = move(s).extract(); } *)
+| FlatReplace (t : bool) (xs : list Z)    (* Vec c; c.emplace_back(x)...; s.replace(move(c)); *)
+(* static_vector constructors of a scoped third object *)
+| CtorN (k : nat)                         (* { Vec c(k); } *)
+| CtorNVal (k : nat) (x : Z)              (* T v(x); { Vec c(k, v); } *)
+| CtorRange (xs : list Z).                (* T src[] = xs; { Vec c(src, src + n); } *)
 
 Definition cid (t : bool) : nat := if t then 1 else 0.
 Definition sel (t : bool) (s : nat * nat) : nat := if t then snd s else fst s.
@@ -562,6 +568,30 @@ Definition step_sv (s : nat * nat) (m : vmem) (o : op) : G (nat * nat) :=
   | FlatInsertCr t x => on t (with_ext [x] (flat_emplace (cid t) (sel t s) (elems m (cid t) (sel t s)) x (Copy (Ext 0))))
   | FlatEmplace t x => on t (flat_emplace (cid t) (sel t s) (elems m (cid t) (sel t s)) x (Value x))
   | FlatEraseKey t x => on t (with_ext [x] (flat_erase_key (cid t) (sel t s) (elems m (cid t) (sel t s)) x))
+  | FlatExtract t =>
+      (* auto container = move(_container); clear(); return container;  then the caller's object dies *)
+      do k <- move_construct 2 (cid t) (sel t s) ;
+      do n <- clear (cid t) (sel t s) ;
+      exe emit (destructor 2 k) ;
+      ret (upd t s n)
+  | FlatReplace t xs =>
+      (* the caller builds the container; replace: _container = move(container) *)
+      do k <- emplace_all 2 0 (map Value xs) ;
+      do n <- move_assign (cid t) (sel t s) 2 k ;
+      exe emit (destructor 2 k) ;
+      ret (upd t s n)
+  | CtorN k =>
+      (* static_vector(n): TETL_PRECONDITION(n <= capacity()); emplace_n(n); then the destructor *)
+      do _ <- (exe require (k <=? cap) ; do n <- emplace_n 2 0 k ; exe emit (destructor 2 n) ; ret 0) ; ret s
+  | CtorNVal k x =>
+      (* static_vector(n, value): TETL_PRECONDITION(n <= capacity()); insert(begin(), n, value) *)
+      do _ <- with_ext [x] (exe require (k <=? cap) ; do n <- insert_n 2 0 0 k (Ext 0) ; exe emit (destructor 2 n) ; ret 0) ;
+      ret s
+  | CtorRange xs =>
+      (* static_vector(first, last): TETL_PRECONDITION(last - first <= capacity()); insert(begin(), first, last) *)
+      do _ <- with_ext xs (exe require (length xs <=? cap) ;
+                           do n <- insert_range 2 0 0 (exts (length xs)) ; exe emit (destructor 2 n) ; ret 0) ;
+      ret s
   | _ => ret s                           (* not a static_vector operation: never generated *)
   end.
 
